@@ -70,51 +70,7 @@ func C03(p *ir.Program, r *report.R) {
 	verifyCommitTally(c)
 
 	// ---- VoteSet.addVote admission ---------------------------------------
-	{
-		fn := p.Func("types", "VoteSet.addVote")
-		name := "types.(*VoteSet).addVote"
-		calls := ir.Calls(fn, "types.VoteSet.addVerifiedVote")
-		c.MustFind("K1", name+"/admit", fn, len(calls), "addVerifiedVote call")
-		val := "types.ValidatorSet.GetByIndex(voteSet.valSet,vote.ValidatorIndex)"
-		for _, call := range calls {
-			c.Guards(name, "admit", call,
-				G{"vote-non-nil", "!eq(vote,nil)"},
-				G{"index>=0", "le(0,vote.ValidatorIndex)"},
-				G{"address-non-empty", "!eq(len(vote.ValidatorAddress),0)"},
-				G{"set-size", ir.EqPat("vote.ValidatorSize", "types.ValidatorSet.Size(voteSet.valSet)")},
-				G{"height", ir.EqPat("vote.Height", "voteSet.height")},
-				G{"round", ir.EqPat("vote.Round", "voteSet.round")},
-				G{"type", ir.EqPat("vote.Type", "voteSet.type_")},
-				G{"validator-exists", "!eq(" + val + "#1,nil)"},
-				G{"address-matches-slot", "bytes.Equal(vote.ValidatorAddress," + val + "#0) || bytes.Equal(" + val + "#0,vote.ValidatorAddress)"},
-				G{"signature", "eq(types.Vote.Verify(vote,voteSet.chainID," + val + "#1.PubKey),nil)"},
-			)
-			// (the amount added to the tallies is checked below, across this call: whether the caller or the
-			// callee selects .VotingPower is an implementation detail)
-			r.Check("K1", name+"/admit/power", p.InstrPos(call), Arg(call, 3) == val+"#1.VotingPower" || Arg(call, 3) == val+"#1", "what is passed on for the power is the slot validator's: "+Arg(call, 3))
-			r.Check("K1", name+"/admit/vote", p.InstrPos(call), Arg(call, 1) == "vote" && Arg(call, 2) == "types.BlockID.Key(vote.BlockID)", "the verified vote and its own block key are passed on: "+Arg(call, 1)+","+Arg(call, 2))
-		}
-		// conflicting votes surface as ErrVoteConflictingVotes
-		for _, rt := range ir.Returns(fn) {
-			fs := ir.FactsAt(rt.Instr)
-			if ir.HasFact(fs, "!eq(types.VoteSet.addVerifiedVote(*)#1,nil)") {
-				res := ir.Render(rt.Results[1])
-				r.Check("K2", name+"/conflict-surfaces", p.InstrPos(rt.Instr), strings.Contains(res, "types.NewConflictingVoteError("), "a conflicting vote is returned as a conflicting-vote error: "+short(res, 160))
-			}
-		}
-		// Vote.Verify
-		vf := p.Func("types", "Vote.Verify")
-		for _, rt := range ir.Returns(vf) {
-			if ir.AbstractResult(rt.Results[0]) == "nil" {
-				c.Guards("types.(*Vote).Verify", "return nil", rt.Instr,
-					G{"address", "bytes.Equal(crypto.PubKey.Address(pubKey),vote.ValidatorAddress) || bytes.Equal(vote.ValidatorAddress,crypto.PubKey.Address(pubKey))"},
-					G{"signature", "crypto.PubKey.VerifyBytes(pubKey,types.Vote.SignBytes(vote,chainID),vote.Signature)"})
-			}
-		}
-		// AddVote (exported) only wraps addVote under the mutex
-		c.WhoMayCall("types", "VoteSet.addVote", "types.(*VoteSet).AddVote")
-		c.WhoMayCall("types", "VoteSet.addVerifiedVote", "types.(*VoteSet).addVote")
-	}
+	voteSetAdmission(c)
 
 	// ---- addVerifiedVote structure ----------------------------------------
 	{
@@ -522,4 +478,54 @@ func verifyCommitTally(c C) {
 		r.Check("K3", "who-may-call/types.ValidatorSet.VerifyCommitAny", p.Pos(o.Pos()), len(got) == 0,
 			fmt.Sprintf("VerifyCommitAny looks validators up by the address inside the vote (a validator could be counted in several slots); it must have no caller: %v", keys(got)))
 	}
+}
+
+// voteSetAdmission: a vote is admitted to a VoteSet only as the vote of the validator in ITS slot (index
+// in range, address equal to the slot validator's, signature by that validator's key); shared by C03 and
+// C01 (a vote counted under another validator's index makes +2/3 out of one signer).
+func voteSetAdmission(c C) {
+	p, r := c.P, c.R
+	fn := p.Func("types", "VoteSet.addVote")
+	name := "types.(*VoteSet).addVote"
+	calls := ir.Calls(fn, "types.VoteSet.addVerifiedVote")
+	c.MustFind("K1", name+"/admit", fn, len(calls), "addVerifiedVote call")
+	val := "types.ValidatorSet.GetByIndex(voteSet.valSet,vote.ValidatorIndex)"
+	for _, call := range calls {
+		c.Guards(name, "admit", call,
+			G{"vote-non-nil", "!eq(vote,nil)"},
+			G{"index>=0", "le(0,vote.ValidatorIndex)"},
+			G{"address-non-empty", "!eq(len(vote.ValidatorAddress),0)"},
+			G{"set-size", ir.EqPat("vote.ValidatorSize", "types.ValidatorSet.Size(voteSet.valSet)")},
+			G{"height", ir.EqPat("vote.Height", "voteSet.height")},
+			G{"round", ir.EqPat("vote.Round", "voteSet.round")},
+			G{"type", ir.EqPat("vote.Type", "voteSet.type_")},
+			G{"validator-exists", "!eq(" + val + "#1,nil)"},
+			G{"address-matches-slot", "bytes.Equal(vote.ValidatorAddress," + val + "#0) || bytes.Equal(" + val + "#0,vote.ValidatorAddress)"},
+			G{"signature", "eq(types.Vote.Verify(vote,voteSet.chainID," + val + "#1.PubKey),nil)"},
+		)
+		// (the amount added to the tallies is checked below, across this call: whether the caller or the
+		// callee selects .VotingPower is an implementation detail)
+		r.Check("K1", name+"/admit/power", p.InstrPos(call), Arg(call, 3) == val+"#1.VotingPower" || Arg(call, 3) == val+"#1", "what is passed on for the power is the slot validator's: "+Arg(call, 3))
+		r.Check("K1", name+"/admit/vote", p.InstrPos(call), Arg(call, 1) == "vote" && Arg(call, 2) == "types.BlockID.Key(vote.BlockID)", "the verified vote and its own block key are passed on: "+Arg(call, 1)+","+Arg(call, 2))
+	}
+	// conflicting votes surface as ErrVoteConflictingVotes
+	for _, rt := range ir.Returns(fn) {
+		fs := ir.FactsAt(rt.Instr)
+		if ir.HasFact(fs, "!eq(types.VoteSet.addVerifiedVote(*)#1,nil)") {
+			res := ir.Render(rt.Results[1])
+			r.Check("K2", name+"/conflict-surfaces", p.InstrPos(rt.Instr), strings.Contains(res, "types.NewConflictingVoteError("), "a conflicting vote is returned as a conflicting-vote error: "+short(res, 160))
+		}
+	}
+	// Vote.Verify
+	vf := p.Func("types", "Vote.Verify")
+	for _, rt := range ir.Returns(vf) {
+		if ir.AbstractResult(rt.Results[0]) == "nil" {
+			c.Guards("types.(*Vote).Verify", "return nil", rt.Instr,
+				G{"address", "bytes.Equal(crypto.PubKey.Address(pubKey),vote.ValidatorAddress) || bytes.Equal(vote.ValidatorAddress,crypto.PubKey.Address(pubKey))"},
+				G{"signature", "crypto.PubKey.VerifyBytes(pubKey,types.Vote.SignBytes(vote,chainID),vote.Signature)"})
+		}
+	}
+	// AddVote (exported) only wraps addVote under the mutex
+	c.WhoMayCall("types", "VoteSet.addVote", "types.(*VoteSet).AddVote")
+	c.WhoMayCall("types", "VoteSet.addVerifiedVote", "types.(*VoteSet).addVote")
 }
